@@ -11,8 +11,36 @@ HARNESSES = {
     'k_rsdpv2_checksum_any_length': dict(MB2, file='rsdp.rs', kind='bounded', bound='all 48 tag bytes symbolic, stored RSDP length 0..=96 (unwind 100)',
         functions=['RsdpV2Tag::checksum_is_valid'], props=['C04', 'C01']),
     # known findings (fail on the reference tree; see known_findings.json)
-    'k_vbe_decode_mode_any_model': dict(MB2, file='vbe_info.rs', kind='full', bound='all 784 tag bytes symbolic incl. every memory-model byte; loop-free',
+    'k_vbe_decode_mode_any_model': dict(MB2, file='vbe_info.rs', kind='full', known_failing=True, bound='all 784 tag bytes symbolic incl. every memory-model byte; loop-free',
         functions=['VBEInfoTag::mode_info', 'VBEModeInfo.memory_model'], props=['C01', 'C08']),
-    'k_memarea_end_address_total': dict(MB2, file='memory_map.rs', kind='full', bound='all 24 entry bytes symbolic; loop-free',
+    'k_memarea_end_address_total': dict(MB2, file='memory_map.rs', kind='full', known_failing=True, bound='all 24 entry bytes symbolic; loop-free',
         functions=['MemoryArea::end_address'], props=['C08']),
 }
+
+BI = dict(crate='multiboot2', features=None, file='boot_information.rs')
+HARNESSES.update({
+    'k_load_accepts_exactly': dict(BI, kind='bounded', bound='64-byte region, every content, every declared total size 0..=64 (larger sizes need a larger readable region)',
+        functions=['BootInformation::load', 'has_valid_end_tag', 'start_address', 'end_address', 'total_size', 'as_ptr', 'ref_from_ptr'], props=['C02', 'C01']),
+    'k_load_null': dict(BI, kind='full', bound='null pointer', functions=['BootInformation::load'], props=['C02']),
+    'k_tags_walk': dict(BI, kind='bounded', bound='48-byte region, every content, every tag size; controlled panics accepted',
+        functions=['BootInformation::tags', 'TagIter::next', 'DynSizedStructure::header', 'DynSizedStructure::payload'], props=['C03', 'C01'], allow=['assert', 'panic']),
+    'k_get_tag_first_match': dict(BI, kind='bounded', bound='56-byte region with three tags of symbolic type and symbolic contents',
+        functions=['BootInformation::get_tag', 'load_base_addr_tag', 'efi_sdt32_tag', 'DynSizedStructure::cast'], props=['C04']),
+    'k_efi_mmap_withheld': dict(BI, kind='bounded', bound='48-byte region, two tags in both orders',
+        functions=['BootInformation::efi_memory_map_tag', 'efi_bs_not_exited_tag'], props=['C04']),
+})
+
+HARNESSES.update({
+    # failed on the tree before fix 30191e1 (NetworkTag::dst_len underflow); now only the code's own assert fires
+    'k_network_dst_len_any': dict(MB2, file='network.rs', kind='full', bound='every u32 size; loop-free, complete', functions=['NetworkTag::dst_len'],
+        props=['C05', 'C08'], allow=['assert', 'panic']),
+    # known finding (C08): ModuleTag::module_size overflow
+    'k_module_size_any_range': dict(MB2, file='module.rs', kind='bounded', known_failing=True, bound='all bytes of a 24-byte module tag',
+        functions=['ModuleTag::module_size'], props=['C08']),
+})
+
+HARNESSES.update({
+    'k_tagiter_clone_history': dict(crate='multiboot2-common', features=None, file='iter.rs', kind='bounded',
+        bound='40-byte buffer tiled by three tags of symbolic size and content; clone after 0..=4 steps; 5 further steps',
+        functions=['TagIter::new', 'TagIter::next', 'TagIter::clone'], props=['C03']),
+})
